@@ -526,6 +526,26 @@ func cmdCheck(args []string) {
 		"structural_ok":            nStructOK,
 		"all_solvers_must_agree":   all,
 	}
+	{
+		// the slowest discharged obligations: a query near the time limit is the unstable one
+		type st struct {
+			n string
+			t float64
+			s string
+		}
+		var sl []st
+		for _, o := range obls {
+			if o.Status == "discharged" && !o.Smoke {
+				sl = append(sl, st{o.Name, o.Time, o.Solver})
+			}
+		}
+		sort.Slice(sl, func(i, j int) bool { return sl[i].t > sl[j].t })
+		var top []interface{}
+		for i := 0; i < len(sl) && i < 5; i++ {
+			top = append(top, map[string]interface{}{"obligation": sl[i].n, "solver": sl[i].s, "seconds": sl[i].t})
+		}
+		cov["slowest_obligations"] = top
+	}
 	if len(validations) > 0 {
 		cov["assumed_contract_validations"] = validations
 	}
